@@ -420,6 +420,41 @@ func runMarch(c MarchCase, o *vh.Obs) *vh.Failure {
 				return cv.MarchOnAttributeParallel(modeling.PositionAttribute, cutoff)
 			}},
 		}
+		if c.Extra == 0 && rep == 0 {
+			// a canvas accumulates: a small ball first, then the whole field - the second call meets blocks
+			// that exist already and (when the field reaches further) blocks that still have to be created
+			first := marching.Sphere(ctr, c.R*cell, 1)
+			seq2 := marching.NewMarchingCanvas(c.CPU)
+			seq2.AddField(first)
+			seq2.AddField(field)
+			ref2 := triKeys(seq2.March(cutoff))
+			o.Class("marching/second-field-on-a-canvas-that-holds-one")
+			for _, v := range []variant{
+				{"2xAddFieldParallel+March", func() modeling.Mesh {
+					cv := marching.NewMarchingCanvas(c.CPU)
+					cv.AddFieldParallel(first)
+					cv.AddFieldParallel(field)
+					return cv.March(cutoff)
+				}},
+				{"AddField,AddFieldParallel2+March", func() modeling.Mesh {
+					cv := marching.NewMarchingCanvas(c.CPU)
+					cv.AddField(first)
+					cv.AddFieldParallel2(field)
+					return cv.March(cutoff)
+				}},
+			} {
+				var got modeling.Mesh
+				if kind, val := oracle.Try(func() { got = v.run() }); kind != "" {
+					return vh.Failf("marching/"+v.name+"/panic-"+kind, "%s panicked: %v", v.name, val)
+				}
+				if d := diffKeys(ref2, triKeys(got)); d != "" {
+					return vh.Failf("marching/"+v.name+"/differs", "%s: %s (cpu %v, ~%d blocks, NumCPU %d)", v.name, d, c.CPU, blocks, runtime.NumCPU())
+				}
+				if r := vh.RaceReport(); r != "" {
+					return vh.RaceFailure(r)
+				}
+			}
+		}
 		for _, v := range variants {
 			var got modeling.Mesh
 			if kind, val := oracle.Try(func() { got = v.run() }); kind != "" {
